@@ -21,4 +21,8 @@ struct Item {
     Item &operator=(Item &&o) noexcept { v = o.v; moved = o.moved; if (o.v == POISON) stale++; o.moved = true; return *this; }
     ~Item() { *const_cast<volatile int *>(&v) = POISON; }
     int shown() const { return v == POISON ? POISON : moved ? -1000 - v : v; }
+    // implicitly convertible to bool like the int items it replaced: code that (wrongly) returns the item where a bool is
+    // expected - the pre-d28a3b4 blocking next() - must still compile, so that it is decided by the replay and not lost as a
+    // harness build failure
+    operator bool() const { return v != 0; }
 };
